@@ -206,6 +206,18 @@ def object_level(rep, rng, quick):
                 if np.max(np.abs(Gm - (G + G2))) > 1e-9 * max(1.0, np.max(np.abs(Gm))):
                     rep.violation("multivariate Gram matrix is not the sum of the component Gram matrices",
                                   {"X1": C.hexf(X), "X2": C.hexf(X2), "x": C.hexf(x), "x2": C.hexf(x2)})
+                if m >= 3:      # ... for the non-default integration rule as well
+                    Gms = mv.inner_product(method_integration="simpson", noise_variance=[0, 0])
+                    Gsum = (d.inner_product(method_integration="simpson", noise_variance=0)
+                            + d2.inner_product(method_integration="simpson", noise_variance=0))
+                    nsum = (d.center().norm(squared=True, method_integration="simpson")
+                            + d2.center().norm(squared=True, method_integration="simpson"))
+                    if np.max(np.abs(Gms - Gsum)) > 1e-9 * max(1.0, np.max(np.abs(Gsum))):
+                        rep.violation("multivariate Gram matrix (simpson) is not the sum of the component Gram matrices (simpson)",
+                                      {"X1": C.hexf(X), "X2": C.hexf(X2), "x": C.hexf(x), "x2": C.hexf(x2)})
+                    elif np.max(np.abs(np.diag(Gms) - nsum)) > 1e-8 * max(1.0, np.max(np.abs(nsum))):
+                        rep.violation("multivariate Gram matrix (simpson): diagonal is not the squared norm of the centred observations",
+                                      {"X1": C.hexf(X), "X2": C.hexf(X2), "x": C.hexf(x), "x2": C.hexf(x2)})
                 if np.max(np.abs(mv.norm(squared=True) - (nsq + nsq2))) > 1e-9 * max(1.0, np.max(nsq + nsq2)):
                     rep.violation("multivariate squared norm is not the sum of the component squared norms",
                                   {"X1": C.hexf(X), "X2": C.hexf(X2)})
